@@ -457,7 +457,127 @@ def _f_token_inside(rnd, s, ver):
     return s[:pos] + glue + tok + tail + s[pos:]
 
 
-FAULTS = [_f_token_inside, _f_empty_mid, _f_empty_front, _f_trailing, _f_fragment_in_value, _f_fragment_in_metric, _f_fragment_field, _f_fragment_in_prefix, _f_duplicate,
+_CONFUSABLES = {}
+
+
+def confusables(ch, cap=14):
+    """Code points other than `ch` that the interpreter's own text machinery relates to the ASCII letter or digit `ch`: case mappings
+    (upper / lower / casefold / title, e.g. U+0130, U+0131, U+017F, U+212A), what the regular-expression engine treats as equal
+    under IGNORECASE, what `\\d` and int() take for a digit, and what compatibility normalisation (NFKC / NFKD) folds into it.  A
+    comparison that is rewritten with any of these (str.upper -> re.I, == -> casefold, startswith -> a pattern with \\d,
+    a normalising clean-up) accepts them.  Computed once from unicodedata / re; at most `cap` per character, the case- and
+    pattern-related ones first."""
+    import unicodedata, re, sys
+    if not _CONFUSABLES:
+        strong, weak = {}, {}
+        rx = re.compile(r"[a-z0-9]", re.I)
+        for cp in range(0x80, 0x30000):
+            c = chr(cp)
+            if 0xD800 <= cp < 0xE000:
+                continue
+            rel = set()
+            for f in (str.upper, str.lower, str.casefold, str.title):
+                t = f(c)
+                t = "".join(x for x in t if not unicodedata.combining(x))
+                if len(t) == 1 and t.isascii() and t.isalnum():
+                    rel.add(("s", t))
+            if rx.fullmatch(c):
+                for t in "abcdefghijklmnopqrstuvwxyz":
+                    if re.fullmatch(t, c, re.I):
+                        rel.add(("s", t))
+            if c.isdigit() or c.isdecimal() or c.isnumeric():
+                try:
+                    rel.add(("s", str(int(c))[:1])) if len(str(int(c))) == 1 else None
+                except ValueError:
+                    d = unicodedata.digit(c, None)
+                    if d is not None:
+                        rel.add(("w", str(d)))
+            for form in ("NFKC", "NFKD"):
+                t = "".join(x for x in unicodedata.normalize(form, c) if not unicodedata.combining(x))
+                if len(t) == 1 and t.isascii() and t.isalnum():
+                    rel.add(("w", t))
+            for kind, t in rel:
+                for tt in set([t.upper(), t.lower()]):
+                    (strong if kind == "s" else weak).setdefault(tt, []).append(c)
+        for k in set(strong) | set(weak):
+            st = list(dict.fromkeys(strong.get(k, [])))
+            wk = [c for c in dict.fromkeys(weak.get(k, [])) if c not in st]
+            # of the (many) compatibility forms keep a spread: full-width, circled / parenthesised, mathematical, sub- / superscript
+            _CONFUSABLES[k] = (st, wk[::max(1, len(wk) // 6)])
+    st, wk = _CONFUSABLES.get(ch, ([], []))
+    if len(st) > 8:          # decimal digits exist in some sixty scripts: keep a spread of them
+        st = st[:3] + st[3::max(1, (len(st) - 3) // 5)]
+    full = chr(0xFEE0 + ord(ch))          # the full-width form is what East Asian input methods type
+    return list(dict.fromkeys(([full] if ch.isalnum() and ch.isascii() else []) + st + wk))[:cap]
+
+
+def confusable_sweep(rnd):
+    """every character class of a vector (prefix letters and digits, a metric name, a value) with one character replaced by each of
+    its confusables, per version"""
+    out = []
+    for ver in "234":
+        s = random_vector(rnd, ver, p_opt=0.6)[3]
+        if ver == "4" and "/U:" not in s:
+            s += "/U:Red"
+        pre, f = _fields(s)
+        spots = []
+        if pre:
+            spots += [(0, k) for k in range(len(pre)) if pre[k].isalnum()]
+        seen = set()
+        for fi, fld in enumerate(f):
+            for k, chx in enumerate(fld):
+                if chx.isalnum() and (chx, k < fld.find(":")) not in seen:
+                    seen.add((chx, k < fld.find(":")))
+                    spots.append((fi + 1, k))
+        for fi, k in spots:
+            src = pre if fi == 0 else f[fi - 1]
+            for c in confusables(src[k]):
+                new = src[:k] + c + src[k + 1:]
+                out.append((new + "/".join(f)) if fi == 0 else (pre + "/".join(f[:fi - 1] + [new] + f[fi:])))
+    return out
+
+
+def wild_answers(rnd, n=120):
+    """answers to a builder question that are no legal value of any metric of any version: text shaped like the grammar the builder
+    is producing (fields, chunks of vectors, prefixes, several colons - what gets pasted from an existing vector), characters with a
+    meaning to formatters / patterns / shells, look-alikes of value letters, very long and control-character answers"""
+    legal = set(v.upper() for ver in "234" for m in ORDER[ver] for v in VALS[ver][m])
+    out = ["AV:N", "av:n", "AV:N/AC:L", "CVSS:3.1/AV:N", "CVSS:4.0/AV:N/AC:L/AT:N", "C:P/I:P/A:P", "::", ":", "a:b:c", "AV::N", ":N", "N:", "N/A", "N/L/H",
+           "AV=N", "AV N", "/", "//", "CVSS:3.1/", "CVSS:", "7.5", "7.5/AV:N/AC:L/Au:N/C:P/I:P/A:P", "-v", "--help", "-", "--", "junk", "?", "0", "None", "High",
+           "null", "True", "\\", "\\n", "%s", "%d", "{}", "{0}", "{x}", "$x", "*", ".*", "(", ")", "[", "(N)", "[N]", "'N'", '"N"', "N.", "N,", "N;", "N N",
+           "N\tL", "\x1b[31mN\x1b[0m", "\x1b", "\x07", "N\x00", "\ufeffN", "N\u200b", "\u00e9", "\U0001F600", "x" * 300, "N" * 70, "ND" * 40, "AV:N/" * 30]
+    for v in sorted(legal):
+        if len(v) <= 2:
+            for c in confusables(v[0], cap=4):
+                out.append(c + v[1:])
+    for _ in range(20):
+        ver = rnd.choice("234")
+        sv = random_vector(rnd, ver)[3]
+        out += [sv, rnd.choice(sv.split("/")), "/".join(sv.split("/")[:rnd.randrange(2, 5)])]
+    out = [a for a in dict.fromkeys(out) if a.strip() and a.strip().upper() not in legal and "\n" not in a and "\r" not in a]
+    rnd.shuffle(out)
+    return out[:n]
+
+
+WRAPPERS = [("(", ")"), ("[", "]"), ("{", "}"), ("<", ">"), ('"', '"'), ("'", "'"), ("`", "`"), ("\u201c", "\u201d"), ("", "."), ("", ","), ("", ";"), ("", ")"), ("(", ""),
+            (" ", ""), ("", " "), (" ", " "), ("\t", ""), ("", "\n"), ("", "\r\n"), ("\ufeff", ""), ("", "\x00"), ("vector=", ""), ("CVSS=", ""), ("#", ""), ("", "#x")]
+
+
+def _f_wrapped(rnd, s, ver):
+    """the whole vector as it is quoted in prose, reports and data files: in brackets or quotes, with trailing punctuation, padded"""
+    a, b = rnd.choice(WRAPPERS)
+    return a + s + b
+
+
+def wrapper_sweep(rnd):
+    out = []
+    for ver in "234":
+        for a, b in WRAPPERS:
+            out.append(a + random_vector(rnd, ver, p_opt=rnd.choice([0.0, 0.5]))[3] + b)
+    return out
+
+
+FAULTS = [_f_wrapped, _f_token_inside, _f_empty_mid, _f_empty_front, _f_trailing, _f_fragment_in_value, _f_fragment_in_metric, _f_fragment_field, _f_fragment_in_prefix, _f_duplicate,
           _f_unknown_metric, _f_unknown_value, _f_missing_mandatory, _f_no_colon, _f_case, _f_space, _f_bad_prefix, _f_nonascii, _f_long]
 
 
@@ -555,6 +675,7 @@ def dictionary_fields(rnd, cap=1200):
 
 def near_misses(rnd, n, depth2=0.2):
     out = prefix_variants(rnd) + value_case_variants(rnd) + fault_pairs(rnd, 1 if n < 50000 else 6) + fragment_sweep(rnd) + dictionary_fields(rnd)
+    out += wrapper_sweep(rnd) + confusable_sweep(rnd)
     for _ in range(n):
         ver = rnd.choice("234")
         _, minor, g, s = random_vector(rnd, ver)
